@@ -816,6 +816,10 @@ def inline_new_constants(P):
                 _ConstSubst(mm).visit(fn)
                 _FoldInts().visit(fn)
                 n += 1
+                # a table that is now a display may be one of the shapes the canonical form reads back (a loop over constant rows)
+                if not isinstance(fn, ast.Lambda) and any(isinstance(x, ast.For) and isinstance(x.iter, (ast.Tuple, ast.List)) for x in ast.walk(fn)):
+                    from .canon import canonicalise_function
+                    canonicalise_function(fn)
     n += _inline_new_class_constants(P, base)
     return n
 
